@@ -140,19 +140,21 @@ def scanner(ctx, cfg, known):
     after the other in one connection table.  Each must be answered as it is anywhere else."""
     rng = ctx.rng
     for v6 in (False, True):
-        ctx.reset_table()
+        ctx.case(reset=True, record=True)       # (the connections of one scanner round are the replay of a violation)
         e = gen.endp(rng, cfg, v6)
         sp = gen.rnd_port(rng)
         used = set()
         for t, base in known:
             dp = rng.choice(PORTS) if rng.random() < 0.5 else gen.rnd_port(rng)
             e2 = e
-            if dp in used:
+            if (e.sip, dp) in used:
                 if cfg.selfips:
                     continue
                 o = gen.endp(rng, cfg, v6)          # same port pair, another address of the responder
                 e2 = pkt.Endp(e.cmac, e.smac, e.cip, o.sip)
-            used.add(dp)
+                if (e2.sip, dp) in used:
+                    continue                        # (every connection of the round is a tuple of its own)
+            used.add((e2.sip, dp))
             isn = rng.getrandbits(32)
             r = ctx.send(e2.tcp(sp, dp, isn, 0, SYN))
             a = pkt.parse(r.reply) if r.kind == "R" else {}
